@@ -35,7 +35,7 @@ EntSites(k) ==
 RecordShapes == {"garbage", "empty", "versiononly", "short", "long", "otherversion"}
 \* request-wide sites
 ReqSites(k) ==
-    {<<"ruler.enter", "failed">>, <<"ruler.enter", "unknown">>}
+    {<<"ruler.enter", "failed">>, <<"ruler.enter", "unknown">>, <<"ruler.enter", "empty">>}      \* (empty: the ruler hands back NO results at all)
     \cup (IF k = "att" THEN {<<"rules.att", "unknown">>, <<"rules.att", "failed">>, <<"rules.att", "denied">>} ELSE {})
     \cup (IF k = "atts" THEN {<<"rules.atts", "unknown">>, <<"rules.atts", "failed">>, <<"rules.atts", "denied">>} ELSE {})
     \cup (IF k = "prop" THEN {<<"rules.prop", "unknown">>, <<"rules.prop", "failed">>, <<"rules.prop", "denied">>} ELSE {})
